@@ -76,6 +76,7 @@ orc_resizer(void *a)
 {
 	(void) a;
 	nng_socket_set_int(orc_tx, NNG_OPT_SENDBUF, 16); // (8 -> 16; ENOTSUP where there is none)
+	nng_socket_set_int(orc_rx, NNG_OPT_RECVBUF, 16); // growing never entitles to drop anything
 	nng_socket_set_int(orc_tx, NNG_OPT_SENDBUF, 3);  // shrink: still room for what is queued
 	return NULL;
 }
